@@ -546,13 +546,6 @@ theorem relKvs_pop : ∀ (kvs : List (String × Node)), AMap.Sorted kvs → ∀ 
 
 /-! ## rebuilding a node from its Adds, in any order -/
 
-/-- every item of every list holds at least one scalar -/
-inductive Node.ItemsHaveScalars : Node → Prop
-  | leaf (v : Scalar) : Node.ItemsHaveScalars (.leaf v)
-  | list {xs : List Node} : (∀ x ∈ xs, 0 < x.scalarCount) → (∀ x ∈ xs, Node.ItemsHaveScalars x) →
-      Node.ItemsHaveScalars (.list xs)
-  | cont {kvs : List (String × Node)} : (∀ e ∈ kvs, Node.ItemsHaveScalars e.2) → Node.ItemsHaveScalars (.cont kvs)
-
 theorem Node.ItemsHaveScalars.of_list {xs : List Node} (h : (Node.list xs).ItemsHaveScalars) {x : Node} (hx : x ∈ xs) :
     rel x ≠ [] ∧ x.ItemsHaveScalars := by
   cases h with
